@@ -3,23 +3,23 @@ _T = "bounded model checking of the real Rust code (Kani 0.68 -> CBMC 6.11 / CaD
 _N = "Trusted: Kani's MIR->goto translation, CBMC, CaDiCaL, the environment stubs listed in the evidence (coverage.stubs) and DESIGN.md 3.3. Holds only inside the bounds listed per harness in the evidence; async write mode, background threads and third-party crates (regex, flate2, toml, crossbeam) are outside every claim."
 CLAIMS = {
     "C02": {
-        "text": "Solver-decided equivalence of LogSpecification::enabled / level_sort / max_level and of FlexiLogger::log / ::enabled with the reference 'longest specified module name that is a prefix of the target, else default, else off', for all levels, symbolic module names (<= 3 bytes over {a,b,:}), symbolic targets (<= 4 bytes) and symbolic filters; log() delivery to the primary writer or the user line filter iff the reference enables; enabled() never false for a delivered record incl. brace targets at a writer's ceiling. The regex text filter is outside (crate built without `textfilter`).",
-        "note": _N + " HashMap imports are redirected to an association-list model in the build copy (hashbrown is out of CBMC's reach).",
+        "text": "Solver-decided equivalence of LogSpecification::enabled / level_sort / max_level and of FlexiLogger::log / ::enabled with the reference 'longest specified module name that is a prefix of the target, else default, else off', for all levels, symbolic module names (<= 3 bytes over {a,b,:}), symbolic targets (<= 4 bytes) and symbolic filters; log() delivery to the primary writer or the user line filter iff the reference enables; enabled() never false for a delivered record incl. brace targets at a writer's ceiling. Text-filter clause (feature textfilter): with the regex engine replaced by an uninterpreted predicate (symbolic answer for the rendered message, the opposite answer for any other text) log() passes the record on iff the spec enables it AND the filter matches the rendered message, with and without a user line filter.",
+        "note": _N + " HashMap imports are redirected to an association-list model and regex::Regex to an opaque-identity model in the build copy (hashbrown and the regex engine are out of CBMC's reach; what the engine matches is not decided).",
     },
     "C04": {
-        "text": "Synchronous modes at State level: the real std::io::BufWriter (the buffer of the buffered write modes) runs over a byte-recording sink instead of a File; for two records of symbolic length (below, at, above the capacity) it is decided that after State::flush() returned every accepted byte is in the sink exactly once and in order, and that before that the sink holds a prefix; in direct mode every record is in the sink as soon as write_buffer returned and State::shutdown() adds nothing.",
-        "note": _N + " shutdown() in buffered mode does not terminate (it drops the Result of BufWriter::flush); LoggerHandle/FileLogWriter drop chains, stdout/stderr writers, async and flusher threads are outside. The sink replaces File: kernel-level durability is not modelled.",
+        "text": "Synchronous modes at State level: the real std::io::BufWriter (the buffer of the buffered write modes) runs over a byte-recording sink instead of a File; for two records of symbolic length (below, at, above the capacity) it is decided that after State::flush() returned every accepted byte is in the sink exactly once and in order, and that before that the sink holds a prefix; in direct mode every record is in the sink as soon as write_buffer returned; State::shutdown flushes the mounted writer with and without rotation configured; MultiWriter forwards flush / shutdown to its writer exactly once; the sync handle forwards flush / shutdown to the state exactly once.",
+        "note": _N + " LoggerHandle::flush/shutdown and PrimaryWriter::shutdown discard the Result of a virtual call with .ok() (io::Error drop glue: no result), handle clone/drop chains, stdout/stderr writers, async and flusher threads are outside. The sink replaces File: kernel-level durability is not modelled.",
     },
     "C05": {
-        "text": "For concrete sequences of 2-3 reconfiguration operations (set / parse / push / parse_and_push / pop, well-formed and malformed strings) with symbolic specifications, the real LoggerHandle is decided against a reference stack: filtering follows the active spec, pop restores the spec before the matching push, a rejected string changes neither the active spec nor the stack, gate >= spec. The parser is replaced by its contract here (decided under C17).",
+        "text": "For concrete sequences of 2-3 reconfiguration operations (set / parse / push / parse_and_push / pop, well-formed and malformed strings) with symbolic specifications - levels and, with feature textfilter, the text filter of each spec (none / pattern 1 / pattern 2) - the real LoggerHandle is decided against a reference stack: filtering follows the active spec incl. its text filter, pop restores the spec before the matching push, a rejected string changes neither the active spec nor the stack, and the facade gate admits everything the active spec enables after every operation. The parser is replaced by its contract here.",
         "note": _N + " LogSpecification::parse is stubbed by its contract in these harnesses; sequences longer than 3 operations are outside.",
     },
     "C07": {
-        "text": "The cleanup kernel remove_or_compress_too_old_logfiles_impl is decided for KeepLogFiles(k), k <= 6 symbolic, 0..5 listed files, both naming kinds: exactly the files beyond the k newest are removed, in order, the newest is spared for direct namings, Never touches nothing, a failing removal ends the run with Err and no panic. Compression branches (flate2) and the background cleanup thread are outside.",
-        "note": _N + " The directory listing is replaced by its contract (newest first); the listing/filter code is decided under C14.",
+        "text": "The cleanup kernel remove_or_compress_too_old_logfiles_impl is decided for KeepLogFiles(k), k <= 6 symbolic, 0..5 listed files, both naming kinds: exactly the files beyond the k newest are removed, in order, the newest is spared for direct namings, Never touches nothing, a failing removal ends the run with Err and no panic. The Numbers infix filter (which decides what counts as a rotated file) is decided on 8 symbolic bytes: accepts every r+5 digits, rejects rCURRENT and everything not starting with r+digit. Compression branches (flate2) and the background cleanup thread are outside.",
+        "note": _N + " The directory listing is replaced by its contract (newest first): the ordering produced by read_dir_related_files (behind the opaque std::fs::ReadDir) is not decided; the listing filter is decided under C14.",
     },
     "C08": {
-        "text": "CBMC decides, for all 64-bit values of limit and current size, that the real rotation decision equals (current size > limit) for Size and for AgeOrSize with the age part inactive; increase_size / reset_size_and_date are decided full-width. The step-level glue (rotate before write, account after write) is decided by the State step harnesses where they terminate.",
+        "text": "CBMC decides, for all 64-bit values of limit and current size, that the real rotation decision equals (current size > limit) for Size and for AgeOrSize with the age part inactive; increase_size / reset_size_and_date are decided full-width (reset re-reads the start time of the new file whatever the sizes); RollState::new counts the content found at start when appending. The step-level glue (rotate before write, account after write) is decided by the State step harnesses.",
         "note": _N,
     },
     "C09": {
@@ -27,19 +27,19 @@ CLAIMS = {
         "note": _N + " Monotone local clock assumed (DST jumps outside); file birth time lookup is outside.",
     },
     "C10": {
-        "text": "Absence of panics (slice/str indexing, unwrap, overflow, unwinding assertions as the no-hang check) in FlexiLogger::log / ::enabled for a menu of adversarial targets (unbalanced / empty braces, multi-byte characters next to the braces, separators only, empty) with symbolic specification and level; further entry points are added per harness (see evidence).",
+        "text": "Absence of panics (slice/str indexing, unwrap, overflow, unwinding assertions as the no-hang check) in FlexiLogger::log / ::enabled for a menu of adversarial targets (unbalanced / empty braces, multi-byte characters next to the braces, separators only, empty) with symbolic specification and level; in the listing filter for multi-byte names; in the infix filters for symbolic byte strings incl. multi-byte characters at every position; in get_highest_index / ts_infix_from_path for short names.",
         "note": _N + " Symbolic target bytes did not terminate; the target menu is concrete, everything else symbolic. The lone '{' instance does not terminate on the fixed tree and is not registered.",
     },
     "C11": {
-        "text": "Numbers naming, leaf level: every directory state a kill between two file-system effects of a rotation can leave (before the rename, between rename and re-open, after the re-open) is the symbolic start state of index_for_rcurrent for the restarted logger: it returns Ok, and the next rotation number is above every number on disk; a cleanup killed after j removals converges when run again; in direct mode a record is handed to the writer before write_buffer returns (c04_direct_shutdown).",
+        "text": "Numbers naming, leaf level: every directory state a kill between two file-system effects of a rotation can leave (before the rename, between rename and re-open, after the re-open) is the symbolic start state of index_for_rcurrent for the restarted logger: it returns Ok, and the next rotation number is above every number on disk; a cleanup killed after j removals converges when run again; in direct mode open_log_file hands out an unbuffered File (bytes reach the descriptor when write returns), reopen_outputfile keeps it unbuffered, and a record is handed to the writer before write_buffer returns.",
         "note": _N + " Compositional: the order of the effects is decided by c01_rotate_numbers_size, the restart by the leaf harnesses; torn writes, timestamp namings, compression and kills at arbitrary instructions are outside; file contents are not modelled.",
     },
     "C12": {
-        "text": "Two concurrent set_new_spec calls are decided over all well-nested interleavings (second call before / inside the window between spec update and gate update / after) with symbolic specifications: the final state is one submitted specification as a whole and the gate admits everything it enables. The schedule point is the (stubbed) log::set_max_level; the second call only runs there if the spec lock is free.",
+        "text": "Two concurrent set_new_spec calls are decided over all well-nested interleavings with symbolic specifications: the second call arrives at any schedule point of the first - before each acquisition of the spec lock (read or write) and before the gate update - and runs as soon as the lock is free: the final state is one submitted specification as a whole and the gate admits everything it enables.",
         "note": _N + " Kani has no threads: the schedule is a symbolic position; argument why well-nested interleavings suffice for last-writer-wins state is in the harness source. Specfile watcher outside.",
     },
     "C13": {
-        "text": "FlexiLogger::log is decided for concrete brace lists over {A, B, _Default, unknown} with symbolic writer ceilings, specification, level and module path: one call per occurrence to each named registered writer, none to others, default channel iff _Default and the spec enables the module path, one report per unknown name, one timestamp for all receivers. MultiWriter::write duplication is decided for all 7x7 Duplicate settings x 5 levels before and after run-time adaptation; FileLogWriter::write for all ceilings x levels.",
+        "text": "FlexiLogger::log is decided for concrete brace lists over {A, B, _Default, unknown} with symbolic writer ceilings, specification, level and module path: one call per occurrence to each named registered writer, none to others (also after an unknown name earlier in the list), default channel iff _Default and the spec enables the module path, one report per unknown name, one timestamp for all receivers. MultiWriter::write duplication is decided for all 7x7 Duplicate settings x 5 levels before and after run-time adaptation; FileLogWriter::write for all ceilings x levels.",
         "note": _N + " SyslogWriter is outside (feature not encoded).",
     },
     "C01": {
@@ -47,35 +47,38 @@ CLAIMS = {
         "note": _N + " Leaves (open_log_file, directory listing) are replaced by contract stubs; file contents are not modelled; timestamp namings, Age inside the step and buffered modes are outside (DESIGN.md 3.2, 4).",
     },
     "C06": {
-        "text": "Leaf kernels of the restart logic are decided: index_for_rcurrent (next index = remembered one or highest existing + 1, rename to exactly that number, ENOENT is not an error), get_highest_index on listings by contract (plain, compressed, name parts containing '_r', short infixes, several files), RollState::new seeding with the appended file's size for all u64.",
-        "note": _N + " Timestamp namings (latest_timestamp_file, collision_free_infix_for_rotated_file), initialize_with_rotation as a whole and multi-run histories are outside.",
+        "text": "Leaf kernels of the restart logic are decided: index_for_rcurrent (next index = remembered one or highest existing + 1, rename to exactly that number, ENOENT is not an error), get_highest_index on listings by contract (plain, compressed, name parts containing '_r', short infixes, several files), initialize_with_rotation for the number namings, RollState::new seeding with the appended file's size for all u64, open_log_file (exactly directory/[basename]_[infix].[suffix] is opened, append == configured append, truncate only without append), collision_free_infix_for_rotated_file for a listing without restart siblings and symbolic existence of the plain / compressed target name (a rotated file never takes an existing name).",
+        "note": _N + " Timestamp-naming restart (latest_timestamp_file), collision_free_infix_for_rotated_file with restart siblings present (any non-empty listing did not terminate), and multi-run histories are outside. std path functions run as natively self-tested byte-wise models in the collision-free-name harnesses.",
     },
     "C14": {
-        "text": "FileSpec::filter_files is executed symbolically on menus of family members and near misses (other suffix, no suffix, longer basename sharing the prefix, missing infix, current-file infix, fragment inside a longer name, multi-byte separator position, missing separator) for three spec shapes and decided against the documented pattern; one open finding (extra dotted part after the infix) is reported as KNOWN-FINDING.",
+        "text": "FileSpec::filter_files is executed symbolically on menus of family members and near misses (other suffix, no suffix, longer basename sharing the prefix, missing infix, current-file infix, fragment inside a longer name, multi-byte separator position, missing separator) for three spec shapes and decided against the documented pattern; the Equals and Numbers infix filters are decided on symbolic byte strings; one open finding (extra dotted part after the infix) is reported as KNOWN-FINDING.",
         "note": _N + " File names are concrete menus (symbolic names did not terminate): only the listed shapes are covered. Consumers (cleanup, numbering) are decided on listings by contract.",
     },
     "C15": {
-        "text": "Synchronous modes at State level: the byte sequence that reaches the sink for two records of symbolic length is decided equal to one reference stream both for the direct writer and for the real BufWriter after flush - equal to a common reference, hence independent of the write mode; write_buffer hands raw bytes over unchanged and in one piece (c01_write_buffer_glue).",
+        "text": "Synchronous modes at State level: the byte sequence that reaches the sink for two records of symbolic length is decided equal to one reference stream both for the direct writer and for the real BufWriter after flush - equal to a common reference, hence independent of the write mode; raw byte chunks written through plain_write (two chunks, symbolic length <= 3, all 256 byte values incl. the async control bytes, empty chunks) reach the state exactly once, unchanged and in order, and the accepted length is reported; write_buffer hands raw bytes over unchanged and in one piece.",
         "note": _N + " Async mode (dispatch in a spawned thread) and the io::Write front end of ArcFileLogWriter are outside; rotation is stubbed quiet in these instances.",
     },
     "C16": {
-        "text": "FileSpec::as_pathbuf / fixed_name_part are decided equal to the documented concatenation [basename][_discriminant][_infix][.suffix] for all 2^4 present/absent combinations (incl. empty infix); the listing filter is decided on menus for specs with basename, discriminant only and no name parts.",
-        "note": _N + " Start-time part, FileSpec::try_from(path), existing_log_files selectors and the symlink clause are outside.",
+        "text": "FileSpec::as_pathbuf / fixed_name_part are decided equal to the documented concatenation [basename][_discriminant][_infix][.suffix] for all 2^4 present/absent combinations (incl. empty infix, parts ending in '_'); a specification derived from a path (bare file name, nested path) denotes exactly that file and a file writer can be built from it (POSIX: the empty path is ENOENT); open_log_file opens exactly that path, and with a symlink configured the link points to the opened file afterwards whatever it pointed to before (another file, a deleted file, the same file), nothing reported; the listing filter is decided on menus for specs with basename, discriminant only and no name parts.",
+        "note": _N + " Start-time part, existing_log_files selectors and the instance 'no link before' (io::Error drop in the code under test) are outside; the symlink is a one-entry table behind symlink_metadata / remove_file / symlink / canonicalize.",
+    },
+    "C18": {
+        "text": "Reduced claim: State::reopen_outputfile is decided from an Active state with a recording writer: the path that is re-opened is the path of the current file, with create + append and never truncate (earlier content at that path is kept), the writer mounted before is released only after the new file is open (a BufWriter flushes what it holds into the old, externally renamed file when dropped), and bytes written afterwards reach the new file's descriptor at once (no user-space buffer is put in front of it); the sync handle forwards reopen to the state exactly once.",
+        "note": _N + " reset_flw (StateHandle::reset: probe only), LoggerHandle::reopen_output's fan-out to additional writers, and the record streams across the switch (file contents are not modelled) are outside.",
     },
     "C19": {
-        "text": "Concrete fault points with symbolic state: a failing rename / open / cleanup inside the rotation step returns Err before anything later happens, leaves the old writer mounted and index/size consistent (nothing written is lost, rotation is retried); index_for_rcurrent returns non-NotFound rename errors; a failing remove_file ends the cleanup with Err after the earlier removals.",
-        "note": _N + " Faults are concrete per instance (a symbolic fault selector did not terminate); write failures inside write_buffer, the reporting line of write_buffer and multi-step recovery are outside.",
+        "text": "Concrete fault points with symbolic state: a failing rename / open / cleanup inside the rotation step returns Err before anything later happens, leaves the old writer mounted and index/size consistent (nothing written is lost, rotation is retried); index_for_rcurrent returns non-NotFound rename errors; a failing remove_file ends the cleanup with Err after the earlier removals; a failing first initialisation leaves the state Initial with its rotation configuration, so that the next write retries with rotation and ends Active with rotation.",
+        "note": _N + " Faults are concrete per instance (a symbolic fault selector did not terminate); write failures (write_all's error path, the reporting in FlexiLogger::log: io::Error drop glue) and multi-step recovery are outside.",
     },
     "C20": {
-        "text": "StateHandle::write (sync) is decided to hand the state exactly one buffer per record = format output (symbolic bytes) + exactly one configured line ending (LF / CRLF), and to leave the formatting buffer empty for the next record.",
-        "note": _N + " JSON / coloured / timestamp-bearing formats, key-values and async mode are outside.",
+        "text": "StateHandle::write (sync) is decided to hand the state exactly one buffer per record = format output (symbolic bytes) + exactly one configured line ending (LF / CRLF), in the normal and in the recursive-logging path, and to leave the formatting buffer empty for the next record; DeferredNow reads the clock once whatever the accessor order, so all outputs of a record carry the same timestamp.",
+        "note": _N + " The text the provided format functions render (fmt machinery: raw function-pointer dispatch, DESIGN.md 2), JSON / coloured formats, key-values and async mode are outside.",
     },
 }
 _REACH = "needs the real BufWriter<File>/OpenOptions/File code over a model of file contents and State as a whole; every attempt ran out of the 12 GB / 15 min budget (virtual Write dispatch to every implementation, unfoldable enum discriminants, recursive error drop glue - DESIGN.md 2 and 5); the mechanisms that could be decided are counted under C01/C19/C20 only"
 NOT_APPLICABLE = {
     "C03": "thread interleavings of N OS threads, crossbeam channel/queue and stdout locks cannot be encoded by Kani/CBMC (no concurrency support); a sequentialised harness would assume the atomicity it is meant to show",
-    "C17": "LogSpecification::parse / Display run std split/trim/to_lowercase/format! machinery: with symbolic strings CBMC did not terminate, with concrete strings the solver decides nothing (enumeration of concrete runs is not this technique); TOML form needs serde/toml",
-    "C18": "reopen_output / reset_flw: " + _REACH,
+    "C17": "LogSpecification::parse / parse_level_filter run std split/trim/to_lowercase over the input: with symbolic strings (re-probed: 3-5 bytes over a 6-letter alphabet, level parser by contract) CBMC gave no result in 400 s; Display needs the fmt machinery (raw function-pointer dispatch explores every Display impl of the crate); with concrete strings the solver decides nothing (enumeration of concrete runs is not this technique); TOML form needs serde/toml",
 }
 for _k in CLAIMS:
     CLAIMS[_k].setdefault("technique", _T)
